@@ -379,6 +379,21 @@ def read (lines0 : List Str) : Except Err Chart :=
 /-- `OsuMap.read_file`: the file's text split at "\n" -/
 def readText (t : Str) : Except Err Chart := read (splitOn '\n' t)
 
+/-- text-mode `open(path, "r", encoding="utf8")` with Python's universal newlines: "\r\n" and a lone "\r" arrive as
+"\n"; no other character is touched (in particular U+2028, U+2029, U+0085, \x0b, \x0c, \x1c–\x1e stay inside
+their line — `str.split("\n")` is not `str.splitlines()`) -/
+def univNl : Str → Str
+  | [] => []
+  | '\r' :: '\n' :: t => '\n' :: univNl t
+  | '\r' :: t => '\n' :: univNl t
+  | c :: t => c :: univNl t
+
+/-- the lines `OsuMap.read_file` hands to `OsuMap.read`: decode, universal newlines, `split("\n")` -/
+def fileLines (t : Str) : List Str := splitOn '\n' (univNl t)
+
+/-- `OsuMap.read_file` on a file with the (decoded) content `t` -/
+def readFile (t : Str) : Except Err Chart := read (fileLines t)
+
 /-! ### writing: tokens -/
 
 /-- one piece of an output line -/
